@@ -597,3 +597,248 @@ def gen_conv_program(rng, path, nprocs=1, fmt=None):
     p.all('close')
     p.tags.add('conv-fmt%d' % fmt)
     return p
+
+
+# ---------------------------------------------------------------------------------------------------------
+# "mix" programs: several requests per rank and per call -- blocking varn calls with many segments listed in
+# permuted order, and several nonblocking requests per rank whose file ranges interleave (strided lattices with
+# three or more planes in a slow dimension), completed by one wait.  These reach the request sorting / merging /
+# flattening code (ncmpio_wait.c: mgetput coalescing, vars_flatten, merge_requests) that a single request per
+# call never enters.
+def near_sorted_perm(rng, n):
+    """half of the time a uniformly random permutation, otherwise the identity with a few adjacent transpositions"""
+    idx = list(range(n))
+    if n < 2:
+        return idx
+    if rng.chance(1, 2):
+        return rng.shuffle(idx)
+    for _ in range(rng.range(1, 2)):
+        k = rng.below(n - 1)
+        idx[k], idx[k + 1] = idx[k + 1], idx[k]
+    return idx
+
+
+def lattice_regions(rng, shape):
+    """K >= 2 pairwise disjoint regions of `shape` whose file ranges interleave: the residues of a stride-s lattice
+    along one dimension (a slow one when there is a choice); the other dimensions get a common random box so that
+    the regions have the same extent there (equal-sized pieces are what coalescing code confuses)"""
+    nd = len(shape)
+    cand = [d for d in range(nd) if shape[d] >= 4]
+    if not cand:
+        return None
+    slow = [d for d in cand if d < nd - 1]
+    d0 = rng.choice(slow) if (slow and rng.chance(3, 4)) else rng.choice(cand)
+    n = shape[d0]
+    s = rng.range(2, 3) if n >= 7 else 2
+    base = rng.range(0, max(0, n - (2 * s + 1))) if n > 2 * s + 1 and rng.chance(1, 2) else 0
+    st, ct, sd = [], [], []
+    for d in range(nd):
+        if d == d0:
+            st.append(None); ct.append(None); sd.append(s)
+            continue
+        a = rng.range(0, shape[d] - 1)
+        k = rng.range(1, 2) if rng.chance(1, 3) else 1
+        c = rng.range(1, max(1, (shape[d] - a + k - 1) // k))
+        st.append(a); ct.append(c); sd.append(k)
+    regs = []
+    for res in range(s):
+        a = base + res
+        if a >= n:
+            continue
+        maxc = (n - a + s - 1) // s
+        c = maxc if rng.chance(2, 3) else rng.range(1, maxc)
+        r_st, r_ct = list(st), list(ct)
+        r_st[d0], r_ct[d0] = a, c
+        regs.append((r_st, r_ct, list(sd)))
+    return regs if len(regs) >= 2 else None
+
+
+def unit_segments(st, ct, sd):
+    """decompose a (possibly strided) region into contiguous-in-index segments (count 1 along every strided dimension)"""
+    segs = [([], [])]
+    for d in range(len(st)):
+        if sd[d] == 1:
+            segs = [(s + [st[d]], c + [ct[d]]) for s, c in segs]
+        else:
+            segs = [(s + [st[d] + k * sd[d]], c + [1]) for s, c in segs for k in range(ct[d])]
+    return segs
+
+
+def gen_mix_program(rng, path, nprocs, fmt=None, hints='-'):
+    fmt = fmt or rng.choice([1, 2, 5])
+    p = Prog(path, nprocs)
+    p.all('create %s %d clobber %s' % (path, fmt, hints))
+    nd = rng.range(1, 3)
+    dims = [('d%d' % i, rng.range(5, 10) if i == 0 else rng.range(3, 8)) for i in range(nd)]
+    hasrec = rng.chance(1, 2)
+    types = XT_ALL if fmt == 5 else XT_CLASSIC
+    types = [t for t in types if t != 'char']
+    vars_ = []
+    for i in range(rng.range(1, 3)):
+        k = rng.range(1, nd)
+        vd = dims[:k] if rng.chance(2, 3) else [rng.choice(dims) for _ in range(k)]
+        isrec = hasrec and rng.chance(1, 2)
+        if isrec:
+            vd = [('t', 0)] + vd[:2]
+        vars_.append(Var('v%d' % i, rng.choice(types), vd, isrec))
+    emit_define(p, dims, hasrec, vars_, rng, rng.choice(['none', 'none', 'before']))
+    p.all('enddef')
+    vs = ValueSource(rng)
+    numrecs = 0
+    written = {}
+    reqn = 0
+    zero_varn = lambda v, mt, kind: '%s varn c %s %s c %s %s - -%s' % (kind, v.name, mt, lst([0] * len(v.dims)), lst([0] + [1] * (len(v.dims) - 1)), ' : ' if kind == 'put' else '')
+    for rnd in range(rng.range(2, 4)):
+        v = rng.choice(vars_)
+        nr = max(numrecs, rng.range(4, 8)) if v.isrec else numrecs
+        shape = shape_of(v, max(nr, 1))
+        regs = lattice_regions(rng, shape)
+        if regs is None:
+            continue
+        # optionally cut every region once more along another dimension: more, smaller requests
+        if len(shape) >= 2 and rng.chance(1, 3):
+            d = rng.choice([x for x in range(len(shape))])
+            more = []
+            for st, ct, sd in regs:
+                if ct[d] >= 2:
+                    h = rng.range(1, ct[d] - 1)
+                    s1, c1 = list(st), list(ct); c1[d] = h
+                    s2, c2 = list(st), list(ct); s2[d] = st[d] + h * sd[d]; c2[d] = ct[d] - h
+                    more += [(s1, c1, list(sd)), (s2, c2, list(sd))]
+                else:
+                    more.append((st, ct, sd))
+            regs = more
+        owner = [rng.below(nprocs) for _ in regs]
+        mt = rng.choice(MT_FOR[v.xt])
+        mode = rng.choice(['varn', 'varn', 'iput', 'iput', 'bput', 'mixed'])
+        coll = rng.chance(1, 2)
+        cellvals = {}
+        for st, ct, sd in regs:
+            for c in region_cells(st, ct, sd):
+                cellvals[c] = vs.take(1)[0]
+        if not coll:
+            p.all('begin_indep')
+        if mode == 'varn':
+            texts = {}
+            for r in range(nprocs):
+                mine = [regs[i] for i in range(len(regs)) if owner[i] == r]
+                segs = []
+                for st, ct, sd in mine:
+                    segs += unit_segments(st, ct, sd)
+                if not segs:
+                    if coll:
+                        texts[r] = zero_varn(v, mt, 'put')
+                    continue
+                segs.sort()
+                order = near_sorted_perm(rng, len(segs))
+                vals = []
+                for o in order:
+                    s, c = segs[o]
+                    vals += [cellvals[x] for x in region_cells(s, c, [1] * len(s))]
+                texts[r] = 'put varn %s %s %s %s %s %s - - : %s' % ('c' if coll else 'i', v.name, mt, rng.choice(['c', 'c', 'v2']),
+                                                                   '|'.join(lst(segs[o][0]) for o in order), '|'.join(lst(segs[o][1]) for o in order),
+                                                                   ' '.join(map(str, vals)))
+                p.tags.add('mix-varn-%dseg' % min(len(segs), 8))
+            p.per_rank(texts)
+        else:
+            use_b = mode in ('bput', 'mixed')
+            if use_b:
+                p.all('attach 65536')
+            names = {r: [] for r in range(nprocs)}
+            maxq = max([owner.count(r) for r in range(nprocs)] + [0])
+            for q in range(maxq):
+                texts = {}
+                for r in range(nprocs):
+                    mine = [regs[i] for i in range(len(regs)) if owner[i] == r]
+                    if q >= len(mine):
+                        continue
+                    st, ct, sd = mine[q]
+                    vals = [cellvals[c] for c in region_cells(st, ct, sd)]
+                    kind = 'bput' if (mode == 'bput' or (mode == 'mixed' and rng.chance(1, 2))) else 'iput'
+                    reqn += 1
+                    nm = 'q%d' % reqn
+                    names[r].append(nm)
+                    texts[r] = nb_text(kind, nm, 'vars', v, mt, rng.choice(['c', 't', 'v2']) if kind == 'iput' else rng.choice(['c', 't']), st, ct, sd, None, vals)
+                p.per_rank(texts)
+            p.tags.add('mix-nbput-%dreq' % min(maxq, 6))
+            p.all('inq_nreqs')
+            if rng.chance(1, 2):
+                p.per_rank({r: 'wait %s %d %s' % ('c' if coll else 'i', len(names[r]), ' '.join(names[r])) for r in range(nprocs) if coll or names[r]})
+            else:
+                p.all('waitall %s %s' % ('c' if coll else 'i', rng.choice(['ALL', 'PUT'])))
+            p.all('inq_nreqs')
+            if use_b:
+                p.all('detach')
+        p.all('barrier')
+        if not coll:
+            p.all('end_indep')
+        written.setdefault(v.name, set()).update(cellvals.keys())
+        if v.isrec:
+            numrecs = max([numrecs] + [c[0] + 1 for c in cellvals])
+        p.all('sync')
+        if hasrec:
+            p.all('inq_numrecs')
+        # ---- read back: interleaving igets completed by one wait, or varn gets with permuted segments
+        shape = shape_of(v, numrecs)
+        if any(n == 0 for n in shape):
+            continue
+        rregs = lattice_regions(rng, shape) or [rand_region(rng, shape)]
+        rowner = [rng.below(nprocs) for _ in rregs]
+        rcoll = rng.chance(1, 2)
+        rmode = rng.choice(['iget', 'iget', 'varn'])
+        wr = written.get(v.name, set())
+        if not rcoll:
+            p.all('begin_indep')
+        if rmode == 'varn':
+            texts = {}
+            for r in range(nprocs):
+                mine = [rregs[i] for i in range(len(rregs)) if rowner[i] == r]
+                segs = []
+                for st, ct, sd in mine:
+                    segs += unit_segments(st, ct, sd)
+                allw = all(c in wr for st, ct, sd in mine for c in region_cells(st, ct, sd))
+                rmt = rng.choice(MT_FOR[v.xt]) if allw else NATIVE[v.xt]
+                if not segs:
+                    if rcoll:
+                        texts[r] = zero_varn(v, rmt, 'get')
+                    continue
+                segs.sort()
+                order = near_sorted_perm(rng, len(segs))
+                texts[r] = 'get varn %s %s %s %s %s %s - -' % ('c' if rcoll else 'i', v.name, rmt, rng.choice(['c', 'c', 'v2']),
+                                                             '|'.join(lst(segs[o][0]) for o in order), '|'.join(lst(segs[o][1]) for o in order))
+                p.tags.add('mix-getvarn-%dseg' % min(len(segs), 8))
+            p.per_rank(texts)
+        else:
+            names = {r: [] for r in range(nprocs)}
+            maxq = max([rowner.count(r) for r in range(nprocs)] + [0])
+            for q in range(maxq):
+                texts = {}
+                for r in range(nprocs):
+                    mine = [rregs[i] for i in range(len(rregs)) if rowner[i] == r]
+                    if q >= len(mine):
+                        continue
+                    st, ct, sd = mine[q]
+                    allw = all(c in wr for c in region_cells(st, ct, sd))
+                    reqn += 1
+                    nm = 'g%d' % reqn
+                    names[r].append(nm)
+                    texts[r] = nb_text('iget', nm, 'vars', v, (rng.choice(MT_FOR[v.xt]) if allw else NATIVE[v.xt]), rng.choice(['c', 't', 'v2']), st, ct, sd, None, None)
+                p.per_rank(texts)
+            p.tags.add('mix-iget-%dreq' % min(maxq, 6))
+            if rng.chance(1, 2):
+                p.per_rank({r: 'wait %s %d %s' % ('c' if rcoll else 'i', len(names[r]), ' '.join(names[r])) for r in range(nprocs) if rcoll or names[r]})
+            else:
+                p.all('waitall %s %s' % ('c' if rcoll else 'i', rng.choice(['ALL', 'GET'])))
+        p.all('barrier')
+        if not rcoll:
+            p.all('end_indep')
+    p.all('close')
+    p.all('open %s r -' % path)
+    if hasrec:
+        p.all('inq_numrecs')
+    for v in vars_:
+        if all(n > 0 for n in shape_of(v, numrecs)):
+            p.all('get var c %s %s c - - - -' % (v.name, NATIVE[v.xt]))
+    p.all('close')
+    p.tags.add('mix')
+    return p
